@@ -8,6 +8,7 @@ CONSTANTS
   MaxWrite = 2
   Validates = {FALSE, TRUE}
   SetClass = "all"
+  UpdEnabled = {TRUE}
   Deviations = {}
 VIEW vw
 INVARIANT NoViolation
